@@ -307,6 +307,7 @@ static void Reusable(const char * gwName, AbstractMessageIOGateway & gw, FeedIO 
    gw.Reset();
 }
 
+static bool HugeFrameAux(const std::string & stream) {return (stream.size() >= 8)&&((((uint32)(uint8)stream[3])<<24 | ((uint32)(uint8)stream[2])<<16) >= (1u<<24));}
 struct StreamGw {const char * name; AbstractMessageIOGatewayRef gw; FeedIO * io; uint32 limit;};
 static std::vector<StreamGw> g_bin;     // MessageIOGateway configurations
 static void MakeStreamGws()
@@ -318,6 +319,24 @@ static void MakeStreamGws()
    {
       MessageIOGateway * g = new MessageIOGateway(cfg[i].enc); if (cfg[i].limit != MUSCLE_NO_LIMIT) g->SetMaxIncomingMessageSize(cfg[i].limit);
       StreamGw s; s.name = cfg[i].n; s.gw.SetRef(g); s.io = new FeedIO; s.limit = cfg[i].limit; g->SetDataIO(DataIORef(s.io)); g_bin.push_back(s);
+   }
+}
+// SetMaxIncomingMessageSize(n) at the boundary: a body of exactly n bytes is allowed, one of n+1 bytes is not
+static void LimitBoundary(const Case & c, const std::string & stream, const std::string & want)
+{
+   if ((stream.size() < 8)||(HugeFrameAux(stream))) return;
+   const uint32 body = R32(stream, 0);
+   static MessageIOGateway * gw = NULL; static FeedIO * io = NULL;
+   if (gw == NULL) {gw = new MessageIOGateway; io = new FeedIO; gw->SetDataIO(DataIORef(io));}
+   for (int k=0; k<2; k++)
+   {
+      if ((k == 1)&&(body == 0)) continue;
+      Arm(k ? "MessageIOGateway(max = body - 1)" : "MessageIOGateway(max = body)");
+      gw->Reset(); gw->SetMaxIncomingMessageSize(k ? body-1 : body); io->Set(stream, 0);
+      const Pumped p = Pump(*gw, io, NULL);
+      if (k == 0) JudgeStream(c, "MessageIOGateway(max = body)", p, want, stream, false, false);
+      else if (!p.msgs.empty()) Note("violations", "MessageIOGateway handed over a Message whose declared body is larger than SetMaxIncomingMessageSize()", stream);
+      Disarm();
    }
 }
 static bool HugeFrame(const std::string & stream) {return (stream.size() >= 8)&&(R32(stream, 0) >= (1u<<24));}
@@ -378,6 +397,42 @@ static void WebSocketServer(const Case & c, const std::string & frameStream, con
    Disarm();
 }
 
+// The WebSocket frame header is not part of the Message grammar; its length fields get the same boundary values here: 7-bit, 16-bit and
+// 64-bit payload lengths (big-endian) x {0, 1, n-1, n, n+1, 125, 126, 127, 2^15-1, 2^15, 2^16-1, 2^16, 2^31-1, 2^31, 2^32-8.., 2^63-1, 2^63, 2^64-1},
+// with and without the mask bit, every opcode, followed by the n payload bytes that are really there.
+static void WebSocketHeaders(const std::string & payload)
+{
+   if (g_wsRequest.empty()) return;
+   const uint64 n = payload.size();
+   const uint64 v16[] = {0, 1, n-1, n, n+1, 125, 126, 127, 0x7fff, 0x8000, 0xffff};
+   const uint64 v64[] = {0, 1, n, n+1, 0xffff, 0x10000, 0x7fffffffULL, 0x80000000ULL, 0xfffffff8ULL, 0xffffffffULL, 0x100000000ULL, 10*1024*1024ULL, 10*1024*1024ULL+1, 0x7fffffffffffffffULL, 0x8000000000000000ULL, 0xffffffffffffffffULL};
+   std::vector<std::string> hdrs;
+   for (int op=0; op<16; op++) for (int fin=0; fin<2; fin++) {std::string h; h += (char)((fin ? 0x80 : 0) | op); h += (char)(0x80 | (uint8) muscleMin(n, (uint64) 125)); hdrs.push_back(h);}
+   for (int mask=0; mask<2; mask++)
+   {
+      for (int l=0; l<=127; l += ((l >= 3)&&(l < 120)) ? 13 : 1) {std::string h; h += (char) 0x82; h += (char)((mask ? 0x80 : 0) | l); if (l < 126) hdrs.push_back(h);}
+      for (size_t i=0; i<sizeof(v16)/sizeof(v16[0]); i++) {std::string h; h += (char) 0x82; h += (char)((mask ? 0x80 : 0) | 126); h += (char)((v16[i]>>8) & 0xFF); h += (char)(v16[i] & 0xFF); hdrs.push_back(h);}
+      for (size_t i=0; i<sizeof(v64)/sizeof(v64[0]); i++) {std::string h; h += (char) 0x82; h += (char)((mask ? 0x80 : 0) | 127); for (int k=7; k>=0; k--) h += (char)((v64[i]>>(8*k)) & 0xFF); hdrs.push_back(h);}
+   }
+   hdrs.push_back(std::string("\x82", 1)); hdrs.push_back(std::string("\xf2\x85", 2));     // a lone first byte; reserved bits
+   for (size_t i=0; i<hdrs.size(); i++)
+   {
+      const bool masked = (hdrs[i].size() > 1)&&((hdrs[i][1] & 0x80) != 0);
+      std::string f = hdrs[i]; if (masked) f += std::string("\x37\xfa\x21\x3d", 4); f += payload;
+      for (int slave=0; slave<2; slave++)
+      {
+         Arm("WebSocketMessageIOGateway(server, frame header boundaries)");
+         WebSocketMessageIOGateway gw; FeedIO * io = new FeedIO; gw.SetDataIO(DataIORef(io));
+         if (slave) {MessageIOGateway * sl = new MessageIOGateway; sl->SetMaxIncomingMessageSize(1<<20); gw.SetSlaveGateway(AbstractMessageIOGatewayRef(sl));}
+         io->Set(g_wsRequest + f + f, (i%3 == 0) ? 2 : 0);
+         MeasureOn(); (void) Pump(gw, io, NULL); MeasureOff();
+         // the gateway documents a 10 MB cap on the payload it will buffer for one frame
+         if (g_peak > (size_t)(11*1024*1024)) {char t[200]; snprintf(t, sizeof(t), "WebSocketMessageIOGateway: peak of %zu live heap bytes for a %zu-byte stream", g_peak, io->data.size()); Note("violations", t, io->data);}
+         Disarm();
+      }
+   }
+}
+
 static void Tunnels(const Case & c, const std::string & chunk, const std::string & want)
 {
    // the chunk (a framed Message) as the only fragment of one packet; slave gateway = MessageIOGateway (packet mode)
@@ -420,6 +475,19 @@ static void ByteGateways(const std::string & bytes, int mode)
       // these gateways buffer at most what they were given: cumulative allocation stays linear in the input
       const size_t N = bytes.size(), budget = 4*ALLOC_K*N + 4*ALLOC_C;
       if (g_peak > budget) {char t[200]; snprintf(t, sizeof(t), "%s: peak of %zu live heap bytes for %zu bytes of input", names[k], g_peak, N); Note("violations", t, bytes);}
+      if ((k != 2)&&(k != 3))
+      {
+         // nothing invented: the text lines / SLIP frames handed over are made of bytes that were received (line ends, escapes and telnet
+         // commands only ever remove bytes), so together they cannot be longer than the input
+         size_t total = 0;
+         for (size_t i=0; i<p.msgs.size(); i++)
+         {
+            Message m; if (m.UnflattenFromBytes((const uint8 *) p.msgs[i].data(), (uint32) p.msgs[i].size()).IsError()) continue;
+            const String * t; for (int32 j=0; (t = m.GetStringPointer(PR_NAME_TEXT_LINE, NULL, (uint32) j)) != NULL; j++) total += t->Length();
+            const void * d; uint32 n; for (int32 j=0; m.FindData(PR_NAME_DATA_CHUNKS, B_RAW_TYPE, j, &d, &n).IsOK(); j++) total += n;
+         }
+         if (total > bytes.size()) {char t[200]; snprintf(t, sizeof(t), "%s handed over %zu bytes of text / data for %zu bytes of input", names[k], total, bytes.size()); Note("violations", t, bytes);}
+      }
       if ((k == 2)&&(!p.error))
       {
          // the raw gateway has no framing: it must hand over exactly the bytes it was given (nothing invented, nothing read from elsewhere)
@@ -533,6 +601,7 @@ static void RunCase(const Case & c, const std::string & tier)
       const std::string stream = Frame(c.b), valid = Frame(baseBytes);
       const bool baseOK = (g_baseMsg.find(c.base) != g_baseMsg.end());
       BinaryGateways(c, stream, c.b, baseOK ? valid : std::string(), baseBytes, acc, true, (thorough || (h%5 == 0)) ? 7 : 1);
+      if (thorough || (h%3 == 0)) LimitBoundary(c, stream, c.b);
       if (thorough || (h%4 == 0)) WebSocketServer(c, stream, c.b, true, (h%8 == 0) ? 1 : 0);
       if (thorough || (h%4 == 1)) Tunnels(c, stream, c.b);
       if (thorough || (h%4 == 2)) ByteGateways(c.b, (h%8 == 2) ? 1 : 0);
@@ -550,6 +619,8 @@ static void RunCase(const Case & c, const std::string & tier)
       std::string want; if ((c.v == "A")&&(c.b.size() >= 8)) want = c.b.substr(8, R32(c.b, 0));
       const std::string validWant = (baseBytes.size() >= 8) ? baseBytes.substr(8) : std::string();
       BinaryGateways(c, c.b, want, (g_baseMsg.find(c.base) != g_baseMsg.end()) ? baseBytes : std::string(), validWant, false, false, 7);
+      if (c.v == "A") LimitBoundary(c, c.b, want);
+      if (c.k == "base") WebSocketHeaders(c.b);
       WebSocketServer(c, c.b, want, true, (h%2 == 0) ? 0 : 2);
       if (c.b.size() <= 1168)
       {
